@@ -347,7 +347,7 @@ def run(ctx):
     if rmodel is None:
         ctx.violation("model-does-not-compile", "coq/CfgC does not compile", {"log": log[-4000:]}, found_input=False)
         return
-    nrandom = 150 if ctx.tier == "quick" else 2500
+    nrandom = 150 if ctx.tier == "quick" else 7000
     norders = 2 if ctx.tier == "quick" else 3
     sets, feats, modes = [], {}, []
     cdir = os.path.join(vlib.VERIF, "corpus", "C14")
